@@ -1,6 +1,7 @@
 package main
 
 import (
+	"os"
 	"fmt"
 	"go/token"
 	"go/types"
@@ -704,4 +705,198 @@ func isErrOf(v ssa.Value, call *ssa.Call) bool {
 		}
 	}
 	return last != nil && isRes(last)
+}
+
+// c18LastFragmentEndsHeaders (W11): the header block of a request or response is closed on the wire.
+// A header block larger than the peer's SETTINGS_MAX_FRAME_SIZE is sent as HEADERS + CONTINUATION frames; the last one
+// carries END_HEADERS, and nothing else may follow on the connection before it does. The splitting loops of
+// MClientConn.writeHeaders and MServerConn.writeHeaders compute the flag and the loop condition from the same sizes.
+// Clause, decided with the linear arithmetic of the bounds engine (no solver): for every frame written in the loop,
+// "the loop condition is false for the next iteration" implies "this frame's END_HEADERS flag is true" - i.e. the loop can
+// only be left after a frame that closed the block. The loop condition of the next iteration is obtained by substituting
+// the back-edge values for the loop-carried phis. An off-by-one (flag computed with > where the loop stops on >=) leaves a
+// block whose size is an exact multiple of the frame size open: the peer treats whatever comes next as a protocol
+// error, or waits for ever.
+func c18LastFragmentEndsHeaders(c *Ctx) {
+	pkg := "pkg/module/http2"
+	n := 0
+	for _, typ := range []string{"MClientConn", "MServerConn"} {
+		fn := c.M(pkg, typ, "writeHeaders")
+		if fn == nil {
+			c.Unresolved("C18.W11", typ+".writeHeaders")
+			continue
+		}
+		fk := funcKey(fn)
+		ba := newBA(c, fn)
+		loops := naturalLoops(fn)
+		// frames written in a loop, with the value of their END_HEADERS flag
+		type frame struct {
+			at   ssa.Instruction
+			flag ssa.Value
+		}
+		var frames []frame
+		forEachInstr(fn, false, func(_ *ssa.Function, in ssa.Instruction) {
+			call, ok := in.(*ssa.Call)
+			if !ok {
+				return
+			}
+			switch methodName(call.Common()) {
+			case "writeContinuation", "WriteContinuation":
+				args := argsOf(call.Common())
+				if len(args) >= 2 {
+					frames = append(frames, frame{in, args[1]})
+				}
+			case "writeHeaders", "WriteHeaders":
+				// the HeadersFrameParam literal: find the store to its EndHeaders field
+				for _, a := range call.Common().Args {
+					ld, isLd := a.(*ssa.UnOp)
+					if !isLd {
+						continue
+					}
+					al, isAl := ld.X.(*ssa.Alloc)
+					if !isAl {
+						continue
+					}
+					for _, r := range refs(al) {
+						if fa, ok := r.(*ssa.FieldAddr); ok {
+							if _, f, _, _ := fieldAddrInfo(fa); f == "EndHeaders" {
+								for _, rr := range refs(fa) {
+									if st, ok := rr.(*ssa.Store); ok && st.Addr == ssa.Value(fa) {
+										frames = append(frames, frame{in, st.Val})
+									}
+								}
+							}
+						}
+					}
+				}
+			}
+		})
+		ord := 0
+		for _, fr := range frames {
+			var header *ssa.BasicBlock
+			var body map[*ssa.BasicBlock]bool
+			for h, b := range loops {
+				if b[fr.at.Block()] && (body == nil || len(b) < len(body)) {
+					header, body = h, b
+				}
+			}
+			if header == nil {
+				continue
+			}
+			ord++
+			n++
+			key := fmt.Sprintf("%s:last-fragment-ends-headers#%d", fk, ord)
+			ifi, isIf := header.Instrs[len(header.Instrs)-1].(*ssa.If)
+			cond, isBO := ssa.Value(nil), false
+			var bo *ssa.BinOp
+			if isIf {
+				cond = ifi.Cond
+				bo, isBO = cond.(*ssa.BinOp)
+			}
+			flagBO, flagIsBO := fr.flag.(*ssa.BinOp)
+			if !isIf || !isBO || !flagIsBO || !body[header.Succs[0]] {
+				c.Unresolved("C18.W11", "loop condition / END_HEADERS flag of "+typ+".writeHeaders as comparisons")
+				continue
+			}
+			proved, undecided := true, false
+			nback := 0
+			for pi, pred := range header.Preds {
+				if !body[pred] {
+					continue
+				}
+				nback++
+				subst := func(v ssa.Value) (Lin, bool) {
+					if phi, ok := v.(*ssa.Phi); ok && phi.Block() == header {
+						return ba.lin(phi.Edges[pi]), true
+					}
+					if call, ok := v.(*ssa.Call); ok {
+						if b, isB := call.Common().Value.(*ssa.Builtin); isB && b.Name() == "len" {
+							arg := call.Common().Args[0]
+							if phi, ok := arg.(*ssa.Phi); ok && phi.Block() == header {
+								return ba.lenOf(phi.Edges[pi]), true
+							}
+						}
+					}
+					if in, ok := v.(ssa.Instruction); ok && body[in.Block()] {
+						return Lin{}, false
+					}
+					return ba.lin(v), true
+				}
+				x, okx := subst(bo.X)
+				y, oky := subst(bo.Y)
+				if !okx || !oky {
+					proved = false
+					continue
+				}
+				// facts: NOT (x op y)
+				var facts []Lin
+				switch negOp(bo.Op) {
+				case token.LSS:
+					facts = append(facts, y.add(x, -1).add(linConst(1), -1))
+				case token.LEQ:
+					facts = append(facts, y.add(x, -1))
+				case token.GTR:
+					facts = append(facts, x.add(y, -1).add(linConst(1), -1))
+				case token.GEQ:
+					facts = append(facts, x.add(y, -1))
+				case token.EQL:
+					facts = append(facts, x.add(y, -1), y.add(x, -1))
+				}
+				fx, fy := ba.lin(flagBO.X), ba.lin(flagBO.Y)
+				// a len() is never negative, whatever its linear form looks like
+				for _, pr := range []struct {
+					v ssa.Value
+					l Lin
+				}{{bo.X, x}, {bo.Y, y}, {flagBO.X, fx}, {flagBO.Y, fy}} {
+					if call, ok := pr.v.(*ssa.Call); ok {
+						if b, isB := call.Common().Value.(*ssa.Builtin); isB && b.Name() == "len" {
+							facts = append(facts, pr.l)
+						}
+					}
+				}
+				if os.Getenv("VERIF_DEBUG_W11") != "" {
+					fmt.Fprintf(os.Stderr, "W11 %s: next: %s %s %s | flag: %s %s %s\n", fn.Name(), x, bo.Op, y, fx, flagBO.Op, fy)
+				}
+				var goals []Lin
+				switch flagBO.Op {
+				case token.EQL:
+					goals = []Lin{fx.add(fy, -1), fy.add(fx, -1)}
+				case token.GTR:
+					goals = []Lin{fx.add(fy, -1).add(linConst(1), -1)}
+				case token.GEQ:
+					goals = []Lin{fx.add(fy, -1)}
+				case token.LSS:
+					goals = []Lin{fy.add(fx, -1).add(linConst(1), -1)}
+				case token.LEQ:
+					goals = []Lin{fy.add(fx, -1)}
+				default:
+					proved = false
+				}
+				for _, g := range goals {
+					if !ba.prove(g, facts) {
+						proved = false
+						// definite only when a fact speaks about the same quantity (same variable part)
+						same := false
+						for _, f := range facts {
+							d := g.add(f, -1)
+							if d.isConst() {
+								same = true
+							}
+						}
+						if !same {
+							undecided = true
+						}
+					}
+				}
+			}
+			if !proved && undecided {
+				c.Unresolved("C18.W11", "the relation between the loop condition and the END_HEADERS flag of "+typ+".writeHeaders (they are computed from different quantities; the linear prover cannot relate them)")
+				continue
+			}
+			c.Check("C18.W11", key, fr.at.Pos(), proved && nback > 0, "loop condition false for the next iteration implies END_HEADERS on this frame", "the splitting loop can be left after a HEADERS/CONTINUATION frame that does not carry END_HEADERS (the flag and the loop condition disagree at a size boundary, e.g. a block of exactly k x max frame size): the header block stays open on the wire, the peer answers the next frame with a connection error or waits for ever")
+		}
+	}
+	if n < 4 {
+		c.Unresolved("C18.W11", fmt.Sprintf("HEADERS/CONTINUATION writes inside the splitting loops (found %d)", n))
+	}
 }
